@@ -79,7 +79,14 @@ pub struct FileArrays {
     pub file_flags: Vec<u32>, pub file_usernames: Vec<String>, pub file_groupnames: Vec<String>, pub file_inodes: Vec<u32>,
     pub file_langs: Vec<String>, pub dir_indixes: Vec<u32>, pub base_names: Vec<String>, pub file_verify_flags: Vec<u32>,
 }
-pub struct PackageBuilder { pub source_date: Option<Timestamp>, pub directories: DirSet, pub build_host: Option<String> }
+/// BTreeMap<String, PackageFileEntry>: the sizes of its entries in iteration order
+pub struct FileMap { pub sizes: Ghost<Seq<u64>> }
+/// R8: `for (k, v) in self.files.iter()`
+#[verifier::external_body]
+pub fn files_pairs<'a>(m: &'a FileMap) -> (r: Vec<(&'a String, &'a PackageFileEntry)>)
+    ensures r@.len() == m.sizes@.len(), forall|j: int| 0 <= j < r@.len() ==> (#[trigger] r@[j]).1.size == m.sizes@[j],
+{ unimplemented!() }
+pub struct PackageBuilder { pub source_date: Option<Timestamp>, pub directories: DirSet, pub build_host: Option<String>, pub files: FileMap }
 /// every array got exactly THIS file's field appended (so the arrays stay aligned, file by file)
 pub open spec fn file_appended(a: FileArrays, b: FileArrays, e: PackageFileEntry, sd: Option<Timestamp>, dirs: Seq<Seq<char>>, ino: u32) -> bool {
     &&& b.file_sizes@ == a.file_sizes@.push(e.size)
@@ -100,6 +107,46 @@ pub open spec fn file_appended(a: FileArrays, b: FileArrays, e: PackageFileEntry
     &&& strs(b.base_names@) == strs(a.base_names@).push(e.base_name@)
     &&& b.file_verify_flags@ == a.file_verify_flags@.push(e.verify_flags.b)
 }
+/// sum of a sequence of sizes (mathematical)
+pub open spec fn sum_u64(v: Seq<u64>) -> int
+    decreases v.len(),
+{
+    if v.len() == 0 { 0 } else { sum_u64(v.drop_last()) + v.last() as int }
+}
+pub proof fn lemma_sum_prefix(v: Seq<u64>, k: int)
+    requires 0 <= k <= v.len(),
+    ensures 0 <= sum_u64(v.subrange(0, k)) <= sum_u64(v),
+    decreases v.len() - k,
+{
+    lemma_sum_bounds(v.subrange(0, k));
+    if k < v.len() {
+        lemma_sum_prefix(v, k + 1);
+        assert(v.subrange(0, k + 1).drop_last() =~= v.subrange(0, k));
+    } else {
+        assert(v.subrange(0, k) =~= v);
+    }
+}
+pub proof fn lemma_sum_bounds(v: Seq<u64>)
+    ensures forall|i: int| 0 <= i < v.len() ==> #[trigger] v[i] as int <= sum_u64(v), sum_u64(v) >= 0,
+    decreases v.len(),
+{
+    if v.len() > 0 {
+        lemma_sum_bounds(v.drop_last());
+        assert forall|i: int| 0 <= i < v.len() implies #[trigger] v[i] as int <= sum_u64(v) by {
+            if i < v.len() - 1 { assert(v.drop_last()[i] == v[i]); }
+        }
+    }
+}
+/// R12: `v.into_iter().map(u32::try_from).collect::<Result<_, _>>()`: Ok with the narrowed values iff every value fits
+pub struct TryFromIntError;
+#[verifier::external]
+impl std::fmt::Debug for TryFromIntError { fn fmt(&self, f: &mut std::fmt::Formatter<'_>) -> std::fmt::Result { Ok(()) } }
+#[verifier::external_body]
+pub fn try_narrow_u32(v: Vec<u64>) -> (r: Result<Vec<u32>, TryFromIntError>)
+    ensures
+        r is Ok <==> forall|i: int| 0 <= i < v@.len() ==> v@[i] <= 0xffff_ffff,
+        r is Ok ==> r->Ok_0@.len() == v@.len() && forall|i: int| 0 <= i < v@.len() ==> r->Ok_0@[i] as u64 == v@[i],
+{ unimplemented!() }
 pub proof fn lemma_strs_push(v: Seq<String>, s: String)
     ensures strs(v.push(s)) == strs(v).push(s@),
 {
@@ -170,6 +217,48 @@ impl PackageBuilder {
             proof { assert(actual_records@.subrange(0, records@.len() as int) =~= records@); }
             actual_records'''),
     Block(BUILDER, 'prepare_data', impl='impl PackageBuilder', exclusive=True, keep_start=True,
+          start='        for (_, entry) in self.files.iter() {', end='        for (file_index, (cpio_path, entry)) in self.files.iter().enumerate() {',
+          subs=[(re.compile(r'\A'), '        let mut combined_file_sizes: u64 = combined0;\n', 1, 'block prologue: bind the free variable'),
+                ('u32::MAX.into()', '(u32::MAX as u64)', 1, 'R7-lossless widening conversion u32 -> u64')],
+          index_loops={0: ('i_f', '''            invariant
+                i_f <= pairs.len(),
+                pairs@.len() == files.sizes@.len(),
+                forall|j: int| 0 <= j < pairs@.len() ==> (#[trigger] pairs@[j]).1.size == files.sizes@[j],
+                combined_file_sizes as int == sum_u64(files.sizes@.subrange(0, i_f as int)),
+                sum_u64(files.sizes@) <= u64::MAX,
+            decreases pairs.len() - i_f,''', '''proof {
+                assert(files.sizes@.subrange(0, i_f as int + 1).drop_last() =~= files.sizes@.subrange(0, i_f as int));
+                lemma_sum_prefix(files.sizes@, i_f as int + 1);
+            }
+        ''', ('self.files.iter()', 'let files = &self.files; let pairs = files_pairs(files);', 'pairs'))},
+          before=[('            combined_file_sizes += entry.size;', 'proof { lemma_sum_prefix(files.sizes@, i_f as int + 1); assert(files.sizes@.subrange(0, i_f as int + 1).drop_last() =~= files.sizes@.subrange(0, i_f as int)); }\n')],
+          header='''    /// B13 - the package uses the large-file format exactly when the file sizes add up to more than u32::MAX.
+    /// Free variables: self.files, combined_file_sizes (0 on entry).
+    pub fn b13_uses_large_files(&self, combined0: u64) -> (uses_large_files: bool)
+        requires
+            combined0 == 0,
+            sum_u64(self.files.sizes@) <= u64::MAX,        // the contents are in memory: their lengths cannot add up to 2^64
+        ensures uses_large_files == (sum_u64(self.files.sizes@) > 0xffff_ffff),''',
+          tail='''
+        proof { assert(self.files.sizes@.subrange(0, pairs.len() as int) =~= self.files.sizes@); }
+        uses_large_files'''),
+    Block(BUILDER, 'prepare_data', impl='impl PackageBuilder', exclusive=True, keep_start=True,
+          start='            let size_entry = if uses_large_files {', end='            actual_records.extend([\n                size_entry,',
+          subs=[(re.compile(r'file_sizes\s*\.into_iter\(\)\s*\.map\(u32::try_from\)\s*\.collect::<Result<_, _>>\(\)'), 'try_narrow_u32(file_sizes)', 1, 'R12-element-wise u32::try_from collected into a Result'),
+                (re.compile(r'\.expect\(\s*"[^"]*"\s*,?\s*\)'), '.unwrap()', None, 'R4-expect-message'),
+                (re.compile(r'\A'), '            proof { if !uses_large_files { lemma_sum_bounds(file_sizes@); } }\n', 1, 'block prologue: proof hint')],
+          header='''    /// B12 - the file sizes: 64-bit under LONGFILESIZES when the package uses large files, else narrowed to 32 bits under
+    /// FILESIZES - and narrowing cannot fail (the `expect`), because the sizes sum up to at most u32::MAX then.
+    pub fn b12_size_entry(offset: i32, uses_large_files: bool, file_sizes: Vec<u64>) -> (r: IndexEntry<IndexTag>)
+        requires
+            uses_large_files == (sum_u64(file_sizes@) > 0xffff_ffff),          // established by block b13 and the pushes of b10
+        ensures
+            uses_large_files ==> r.tag == 5008 && r.data is Int64 && r.data->Int64_0@ == file_sizes@,      // RPMTAG_LONGFILESIZES
+            !uses_large_files ==> r.tag == 1028 && r.data is Int32 && r.data->Int32_0@.len() == file_sizes@.len()   // RPMTAG_FILESIZES
+                && forall|i: int| 0 <= i < file_sizes@.len() ==> r.data->Int32_0@[i] as u64 == file_sizes@[i],''',
+          tail='''
+            size_entry'''),
+    Block(BUILDER, 'prepare_data', impl='impl PackageBuilder', exclusive=True, keep_start=True,
           start='        if let Some(build_host) = self.build_host {', end='        // if we have an empty RPM, we have to leave out all file related index entries.',
           subs=[(re.compile(r'\A'), '        let mut actual_records = records;\n', 1, 'block prologue: bind the free variable')],
           header='''    /// B8 - the build host is emitted when set.  Free variables: self.build_host, offset, actual_records
@@ -202,5 +291,5 @@ pub fn canary_b11(b: PackageBuilder, records: Vec<IndexEntry<IndexTag>>, size_en
 '''),
 ] + TAIL
 
-OBLIGATIONS = {'PackageBuilder::b10_file_arrays': ['C06', 'C08'], 'lemma_strs_push': ['C06'], 'PackageBuilder::b11_file_records': ['C06', 'C08'], 'PackageBuilder::b8_build_host': ['C06']}
+OBLIGATIONS = {'PackageBuilder::b10_file_arrays': ['C06', 'C08'], 'lemma_strs_push': ['C06'], 'PackageBuilder::b11_file_records': ['C06', 'C08'], 'PackageBuilder::b8_build_host': ['C06'], 'PackageBuilder::b12_size_entry': ['C06', 'C09', 'C17'], 'lemma_sum_bounds': ['C06'], 'lemma_sum_prefix': ['C06'], 'PackageBuilder::b13_uses_large_files': ['C06', 'C09']}
 CANARIES = ['canary_b10', 'canary_b11']
